@@ -189,7 +189,8 @@ func c09Cases(c *Ctx) []rawCase {
 	// ---- unsupported constituents ---------------------------------------------------------------
 	type bad struct{ name, expr, imp string }
 	bads := []bad{{"chan", "chan int", ""}, {"func", "func()", ""}, {"interface", "interface{}", ""}, {"unsafeptr", "unsafe.Pointer", "unsafe"},
-		{"anonstruct", "struct{ S []int }", ""}, {"errorface", "error", ""}, {"recvchan", "<-chan string", ""}}
+		{"anonstruct", "struct{ S []int }", ""}, {"errorface", "error", ""}, {"recvchan", "<-chan string", ""},
+		{"anonchan", "struct {\n\tName string\n\tDone chan bool\n\tTries int\n}", ""}}
 	type ctxt struct {
 		name string
 		mk   func(b string) (decl string, typ string)
@@ -401,7 +402,7 @@ func mustReject(class string) bool {
 		return false
 	}
 	switch kind {
-	case "chan", "func", "interface", "errorface", "recvchan":
+	case "chan", "func", "interface", "errorface", "recvchan", "anonchan":
 		return true
 	}
 	return false
